@@ -400,6 +400,8 @@ def quiet():
     """
     sys.unraisablehook = lambda *a: None
     gc.disable()
+    gc.collect()
+    gc.freeze()  # everything imported so far is permanent: the explicit collections only look at what the executions allocate
 
 
 _runs_since_gc = 0
